@@ -272,7 +272,12 @@ class Explorer:
             extra = {'result': result}
             if needs_old:
                 extra['old'] = old
-            for k, cond in self._call_spec(P, c.post, bound, extra).items():
+            P.hints_off = getattr(P, 'hints_off', 0) + 1      # case_split hints are for the contract's own proof
+            try:
+                clauses = self._call_spec(P, c.post, bound, extra)
+            finally:
+                P.hints_off -= 1
+            for k, cond in clauses.items():
                 P.assume(P.truthy(cond), fact=True)
         return None if is_init else result
 
